@@ -818,8 +818,11 @@ class Interp:
             return v, env
         if name == "set":
             if isinstance(a[0], Sym):
+                # the target is the binding visible AT the set form (the compiler resolves it before the value):
+                # (set x (def x 5)) assigns the outer x
+                box = self.lookup(env, a[0].name)
                 v, env = self.ev(a[1], env)
-                self.lookup(env, a[0].name)[0] = v
+                box[0] = v
                 return v, env
             ds, env = self.ev(a[0].xs[0], env)
             k, env = self.ev(a[0].xs[1], env)
